@@ -69,6 +69,7 @@ structure FileEv where
   tod : Str
   bytes : Nat
   blocks : Nat
+  deriving DecidableEq
 
 def onBeginOfFile (l : DL) (f : FileEv) : DL :=
   let l := l.retLine
